@@ -15,8 +15,9 @@ hash table); `Represents H ps root S` = the root and every materialised slot who
 `nodeAt`; `Walker.runM` = the calls `advance_and_replace` / `advance` in order.
 
 Partial: the page set holds only pages loaded from the hash table on the ways to the terminals (no elided sub-trie is
-entered, so no `PageOrigin::Reconstructed` counters take part); the walk has no parent page (the sub-trie walk is proved on
-the tree walker, `T2_tree_walk_children`); the statements are about `S'` through `ScriptOK`, not through `kvApply`.
+entered, so no `PageOrigin::Reconstructed` counters take part); the statements are about `S'` through `ScriptOK`, not
+through `kvApply`.  The sub-trie walk (walker with a parent page) is `T13_walker_child_roots_partial` in
+`Props/C13_PageWalker.lean`.
 -/
 namespace Nomt.C02
 open Nomt Nomt.Walker Nomt.TriePos
@@ -37,7 +38,8 @@ theorem T2_walker_root_partial (hs : H.Sound) (ps : PageSet Node) (root : Node) 
     have := pathsIn_of_psok ps hps s hs' x hx hne
     exact ⟨Or.inl this.1, Or.inl this.2⟩
   obtain ⟨w', hw', hinv⟩ := runInv_run H ps hs hS hS' hrepR (Or.inl (Or.inl rfl)) steps [] _ _
-    (by simpa using hso) (by simpa using hps) (by simpa using hDp) (runInv_start H ps _ root S S' steps inhibit)
+    (by simpa using hso) (by simpa using hps) (by simpa using hDp) (by intro P0 hp; cases hp)
+    (runInv_start H ps _ none root S S' steps inhibit)
   simp only [List.nil_append] at hinv
   obtain ⟨pages, hc, _⟩ := conclude_spec H ps hs hS hS' hso hrepR (Or.inl (Or.inl rfl)) hinv
   exact ⟨w', pages, hw', hc⟩
@@ -60,7 +62,8 @@ theorem T2_walker_pages_partial (hs : H.Sound) (ps : PageSet Node) (root : Node)
     have := pathsIn_of_psok ps hps s hs' x hx hne
     exact ⟨Or.inl this.1, Or.inl this.2⟩
   obtain ⟨w', hw', hinv⟩ := runInv_run H ps hs hS hS' hrepR (Or.inl (Or.inl rfl)) steps [] _ _
-    (by simpa using hso) (by simpa using hps) (by simpa using hDp) (runInv_start H ps _ root S S' steps inhibit)
+    (by simpa using hso) (by simpa using hps) (by simpa using hDp) (by intro P0 hp; cases hp)
+    (runInv_start H ps _ none root S S' steps inhibit)
   simp only [List.nil_append] at hinv
   obtain ⟨pages, hc, hp⟩ := conclude_spec H ps hs hS hS' hso hrepR (Or.inl (Or.inl rfl)) hinv
   refine ⟨w', pages, hw', hc, ?_⟩
